@@ -121,6 +121,8 @@ def c10_shards(tier, mon="C10", prop="C10"):
                 sh.append(mcx("codes-evt-tok%d-sh%d-ub%d" % (tok, shared, ub), prop=prop, table=T_CODES, cap=40, shared=shared, ubuf=ub, name_alpha="+U", max_name=2, suffix_mask=1,
                               lines=1, refuse_read=1, refuse_write=1, codes_U="OK,HOLD", ecodes_R=ALLE, ecodes_T=ALLE, max_inv=inv, tok=tok, varcb_fail=1,
                               ev="+e:R,+f:T,+g:R,+o:R", act="trigger,hold", trig_budget=2, mon=mon))
+    # the command list (PRINT_CMD_LIST_OK) over every command shape at capacities 32, 9 (exact fit of a line) and 8 (one short)
+    sh += sw_shards("describe", prop, tier, 4, "--family", "shapes", "--pairs", 0, tagp="shapes")
     # runs of 254..70000 NEXT / DATA_NEXT from one handler of each kind, ended by OK or ERROR (eager environment)
     sh += sw_shards("args", prop, tier, 8, "--family", "nextrun", tagp="nextrun")
     # token mode 2: every other invocation hands back an empty response (DATA_NEXT / DATA_OK must still emit the empty line)
@@ -328,7 +330,7 @@ def c13_shards(tier, prop="C13", mon="C13"):
     # (0) bounded searches first (trigger budget, one line): they terminate even if a change makes the state space infinite
     for ring in (1, 2, 3):
         sh.append(mcx("queue-bounded-r%d" % ring, ring=ring, prop=prop, table=T_Q, cap=12, shared=ring % 2, name_alpha="HK", max_name=1, args_alpha="1", max_args=0, suffix_mask=5, lines=1,
-                      refuse_read=1, refuse_write=1, codes_W="HOLD,OK", codes_U="OK", ecodes_R="OK,DATA_OK,DATA_NEXT,HEXIT_OK,HEXIT_ERR", ecodes_T="OK,HEXIT_ERR", max_inv=1, tok=1,
+                      refuse_read=1, refuse_write=1, codes_W="HOLD,OK", codes_U="OK", ecodes_R="OK,DATA_OK,DATA_NEXT,HEXIT_OK,HEXIT_ERR", ecodes_T="OK,HEXIT_ERR,LIST", max_inv=1, tok=1,
                       ev=(ev4 if ring < 3 else "+a:R,+b:R,+d:R") + ",+r:R", act="trigger,hold,queries", trig_budget=3, mon=mon))     # +r: registered but disabled (events do not consult the flag)
     # cat_init called again with events queued and in progress: the queue is empty afterwards
     for ring in (1, 2):
@@ -401,7 +403,7 @@ def c14_shards(tier, prop="C14", mon="C14"):
     # cat_init called again at any point, also while held and after a release request: no hold, no owed result code, no queued event survives
     for nm, alpha, sm in (("U", "+U", 1), ("R", "+R", 2)):
         sh.append(mcx("hold-%s-reinit" % nm, ring=1, prop=prop, table=T_HOLD, cap=16, shared=0, name_alpha=alpha, max_name=2, args_alpha="1", max_args=1,
-                      suffix_mask=sm, lines=2, refuse_read=1, refuse_write=1, codes_U="HOLD,OK", codes_R="HOLD,DATA_OK", ecodes_R="OK,HEXIT_OK", max_inv=1, tok=1, ev="+e:R,+x:R", act="trigger,hold,reinit", trig_budget=1, mon=mon))
+                      suffix_mask=sm, lines=2, refuse_read=1, refuse_write=1, codes_U="HOLD,OK", codes_R="HOLD,DATA_OK", ecodes_R="OK,HEXIT_OK,DATA_NEXT", max_inv=1, tok=1, ev="+e:R,+x:R", act="trigger,hold,reinit", trig_budget=1, mon=mon + ",C15", liveness=1))
     # the same with a mutex interface configured (no fault injection): a spurious or repeated release must leave the lock balanced
     for nm, alpha, sm in (("W", "+W", 4), ("U", "+U", 1)):
         sh.append(mcx("hold-%s-mutex" % nm, ring=1, prop=prop, table=T_HOLD, cap=16, shared=0, name_alpha=alpha, max_name=2, args_alpha="1", max_args=1,
@@ -462,6 +464,8 @@ def c16_shards(tier):
     sh.append(duplex("mutex-run-r1-2obj", 1, 0, 1, "C16", "C16",
                      extra=dict(mutex=1, faults=1, h_trigger=0, act="trigger,hold", suffix_mask=3, ev="+u:R,+h:R", crlf=0, max_name=2, interfere=2,
                                 ecodes_R="OK,DATA_OK", ecodes_T="OK", codes_T="OK", codes_R="OK,DATA_OK")))
+    sh.append(mcx("mutex-list-disabled", ring=1, prop="C16", table="+S:R,vu1rw;+X:Ud;Z:U;+Y:Ud|!+G:U;+G2:UR|+K:U||+u:vu1ro", cap=20, shared=0, name_alpha="+SZ", max_name=2, args_alpha="1", max_args=0, suffix_mask=1, lines=1,
+                  refuse_read=1, refuse_write=1, codes_R="OK", codes_U="LIST,OK", max_inv=1, ev="+u:R", act="trigger", trig_budget=1, mutex=1, faults=1, mon="C16"))
     sh.append(mcx("mutex-implicit-event", ring=2, prop="C16", table="+S:R,vu1rw;D:W,i,vu1rw;Z:U||+u:vu1ro", cap=20, shared=0, name_alpha="+SZD", max_name=2, args_alpha="1", max_args=1, suffix_mask=3, lines=1,
                   refuse_read=1, refuse_write=1, codes_R="OK,DATA_OK", codes_U="OK", codes_W="OK", max_inv=1, ev="D:T,D:R,+u:R", act="trigger,queries", trig_budget=2, mutex=1, faults=1, mon="C16"))
     # lock()/unlock() failing with -1, 256, 65536, INT_MIN, 2 instead of 1 (any non-zero value is a failure)
@@ -852,6 +856,7 @@ def p_c17(tier):
             sh.append(thr(1, 3, 2, 3, 2, i, 4))
         for ring in (1, 2):
             sh.append(thr(ring, 2, 3, 2, 2, variant=2))
+            sh.append(thr(ring, 2, 3, 2, 2, variant=3))
         # hold entered by the read handler of a command that is also raised as an unsolicited READ event by a producer
         for ring in (1, 2):
             for opset in (0, 1):
@@ -868,6 +873,7 @@ def p_c17(tier):
             for opset in (0, 1, 2, 3):
                 sh.append(thr(ring, 2, 4, opset, 3, variant=1))
                 sh.append(thr(ring, 2, 4, opset, 3, variant=2))
+                sh.append(thr(ring, 2, 4, opset, 3, variant=3))
         # auxiliary, not deciding: the same bodies free-running under ThreadSanitizer (sampling)
         for ring in (1, 2, 8):
             for prod in (2, 3, 4):
